@@ -5,28 +5,21 @@ import os
 
 ROOT = os.path.dirname(os.path.dirname(os.path.abspath(__file__)))
 
-# id -> (category, text, level_note, technique, design_ref)
-CLAIMED = {
-    "C01": ("model_checking",
-            "TLC evaluates the TLA+ reference semantics BV.tla on every recorded call of the real constant-folding code "
-            "(exhaustive over all 1-byte operand pairs in the thorough tier, boundary-crossed and random operands at 2/4/8/16 bytes) "
-            "and model-checks BV.tla against the independent integer transcription BVInt.tla on all 65536 1-byte pairs; "
-            "bounded: wider widths are sampled.",
-            "Trusted: TLC + CommunityModules Json/IOUtils/Bitwise, the byte-array projection in harness/src/enc (canary-checked every run), "
-            "BV.tla as transcription of the P-Code manual (cross-checked against BVInt.tla).",
-            "TLA+ reference semantics + TLC trace validation of recorded calls", "DESIGN.md section 6, C01"),
-}
+import sys
+sys.path.insert(0, os.path.join(ROOT, "lib"))
+import props as registry  # noqa: E402
 
 PENDING_REASON = "check not built yet (in progress, see DESIGN.md section 9)"
-
+NOT_APPLICABLE = {}   # id -> reason, for properties that are deliberately not claimed
 
 def main():
     props = [json.loads(l) for l in open(os.path.join(ROOT, "properties.jsonl"))]
     checks, na = [], []
     for p in props:
         i = p["id"]
-        if i in CLAIMED:
-            cat, text, note, tech, ref = CLAIMED[i]
+        if i in registry.MODULES and hasattr(registry.MODULES[i], "MANIFEST"):
+            mm = registry.MODULES[i].MANIFEST
+            cat, text, note, tech, ref = mm["category"], mm["text"], mm["note"], mm["technique"], mm["design_ref"]
             checks.append({
                 "property_id": i,
                 "quick_cmd": "bin/check %s --tier quick" % i,
@@ -39,7 +32,7 @@ def main():
                 "technique": tech,
             })
         else:
-            na.append({"property_id": i, "reason": PENDING_REASON})
+            na.append({"property_id": i, "reason": NOT_APPLICABLE.get(i, PENDING_REASON)})
     m = {
         "version": 1,
         "setup_cmd": "bin/setup",
@@ -50,7 +43,7 @@ def main():
             "source_commits": json.load(open(os.path.join(ROOT, "lib", "hook_commits.json"))) if os.path.exists(os.path.join(ROOT, "lib", "hook_commits.json")) else [],
             "add_only": True,
         },
-        "engines": [{"name": "tlc", "path": "/verif/bin/check", "serves_properties": sorted(CLAIMED),
+        "engines": [{"name": "tlc", "path": "/verif/bin/check", "serves_properties": sorted(c["property_id"] for c in checks),
                      "kind_free_text": "explicit TLA+ specification (/verif/spec) checked by TLC: bounded model checking of the specification "
                                        "plus trace validation of executions recorded from the real code by the Rust harness /verif/harness"}],
         "checks": checks,
